@@ -140,9 +140,48 @@ def _tu():
     return text, "template route: function text of __pyx_lzss_decompress taken from Cython/Utility/StringTools.c, after the real module preamble"
 
 
+def _strip(x):
+    while isinstance(x, dict) and x.get("kind") in ("ImplicitCastExpr", "ParenExpr", "CStyleCastExpr") and x.get("inner"):
+        x = x["inner"][0]
+    return x
+
+
+def _roles(func):
+    """the decoder's cursor variables by what they DO: `pos` indexes the first parameter, `out_pos` the second, `flags` is
+    tested against 0x100, `dst_len` is the third parameter"""
+    params = [c.get("name") for c in func.get("inner", []) if c.get("kind") == "ParmVarDecl"]
+    out = {}
+    if len(params) >= 3:
+        out["dst_len"] = params[2]
+
+    def walk(x):
+        if not isinstance(x, dict):
+            return
+        if x.get("kind") == "ArraySubscriptExpr" and len(x.get("inner", [])) == 2:
+            base, idx = _strip(x["inner"][0]), _strip(x["inner"][1])
+            while idx.get("kind") == "UnaryOperator" and idx.get("inner"):
+                idx = _strip(idx["inner"][0])
+            if base.get("kind") == "DeclRefExpr" and idx.get("kind") == "DeclRefExpr" and len(params) >= 2:
+                b, i = base["referencedDecl"].get("name"), idx["referencedDecl"].get("name")
+                if b == params[0]:
+                    out.setdefault("pos", i)
+                elif b == params[1]:
+                    out.setdefault("out_pos", i)
+        if x.get("kind") == "BinaryOperator" and x.get("opcode") == "&" and len(x.get("inner", [])) == 2:
+            a, b = _strip(x["inner"][0]), _strip(x["inner"][1])
+            for v, c in ((a, b), (b, a)):
+                if v.get("kind") == "DeclRefExpr" and c.get("kind") == "IntegerLiteral" and c.get("value") == "256":
+                    out.setdefault("flags", v["referencedDecl"].get("name"))
+        for c in x.get("inner", []) or []:
+            walk(c)
+    walk(func)
+    return out
+
+
 def _find_backref_branch(func):
     """the else-branch of `if (flags & 1)` inside the decoding loop"""
     found = []
+    flags_name = _roles(func).get("flags", "flags")
 
     def has_flags_and_1(n):
         ok = [False]
@@ -161,7 +200,7 @@ def _find_backref_branch(func):
                             for c in y.get("inner", []) or []:
                                 names_of(c)
                     names_of(x)
-                    if "flags" in names and "#1" in names:
+                    if flags_name in names and "#1" in names:
                         ok[0] = True
                 for c in x.get("inner", []) or []:
                     w(c)
@@ -309,9 +348,11 @@ def _backref_summary(ex, st, n):
     e.mem["dst"] = ex.fresh("dst@backref", st.mem["dst"].sort())
     e.pos_out, e.out_pos_out, e.exit = ex.fresh("pos@backref"), ex.fresh("out_pos@backref"), "normal"
     st.path.append(_c_post(e))
+    actual = {ex.roles().get(c, c): c for c in ("pos", "out_pos")}
     for rid, nm in st.names.items():
-        if nm in ("pos", "out_pos") and rid in st.vars:
-            st.vars[rid] = CV(st.vars[rid].ty, e.pos_out if nm == "pos" else e.out_pos_out)
+        role = actual.get(nm, nm if nm in ("pos", "out_pos") else None)
+        if role and rid in st.vars:
+            st.vars[rid] = CV(st.vars[rid].ty, e.pos_out if role == "pos" else e.out_pos_out)
     st.mem["dst"] = e.mem["dst"]
     ex.__dict__.setdefault("written", set()).add("dst")
     ex.assumptions.add("the back-reference branch is used by its contract (proved by the fragment unit StringTools.lzss_decompress.backref)")
@@ -338,7 +379,7 @@ def _whole_units():
               requires=[("the compressed data is a well-formed token stream for exactly dst_len output bytes (ASSUMED postcondition of lzss_compress)",
                          lambda e: And(wf(e.mem0["src"], SRC_LEN, e.dst_len), SRC_LEN >= 1, SRC_LEN <= 2 ** 40, e.dst_len >= 1, e.dst_len <= 2 ** 40))],
               ensures=[("exactly the compressed length is consumed", lambda e: e.result == SRC_LEN)],
-              options={"invariants": {0: _OuterLoop(), 1: _InnerLoop()}, "merge": False, "summaries": [(_find_backref_branch, _backref_summary)],
+              options={"invariants": {0: _OuterLoop(), 1: _InnerLoop()}, "merge": False, "summaries": [(_find_backref_branch, _backref_summary)], "name_roles": _roles,
                        "probe_unsigned": True},
               subject={"file": "Cython/Utility/StringTools.c"})
     u.search = _py_search
@@ -367,7 +408,7 @@ def units(tier):
                       fragment_desc="else-branch of `if (flags & 1)` (back reference) in the decoding loop",
                       requires=_c_requires(),
                       ensures=[("consumes dec_spec's size, copies length bytes from out_pos-gap-length, nothing else changes", _c_post)],
-                      subject={"file": "Cython/Utility/StringTools.c"})
+                      options={"name_roles": _roles}, subject={"file": "Cython/Utility/StringTools.c"})
     u.search = _py_search
     us.append(u)
     us.extend(_whole_units())
